@@ -80,7 +80,7 @@ func C03(c *run.Ctx) {
 	if !c.Quick() {
 		maxLen = 4
 	}
-	alphabet := []string{"V", "wrong", "none", "downgrade", "oddgrant", "faulted"}
+	alphabet := []string{"V", "wrong", "none", "downgrade", "oddgrant", "faulted", "padded"}
 	var seqs [][]string
 	var gen func(cur []string)
 	gen = func(cur []string) {
@@ -202,8 +202,13 @@ func C03(c *run.Ctx) {
 					}
 				}
 				form := url.Values{"grant_type": {"authorization_code"}, "code": {code}, "redirect_uri": {sp.RedirectURIs[0]}}
-				if att != "none" && att != "oddgrant" && att != "faulted" {
+				if att != "none" && att != "oddgrant" && att != "faulted" && att != "padded" {
 					form.Set("code_verifier", verifier)
+				}
+				if att == "padded" {
+					// no verifier, and the code is presented with surrounding whitespace: whichever handlers tolerate that, they must
+					// agree on which code it is
+					form.Set("code", []string{code + " ", code + "\n", " " + code, code + "\t", code + "%20"}[(ai+si+qi)%5])
 				}
 				if att == "faulted" {
 					// no verifier, and the store cannot answer the lookup of the challenge (a transient failure, not "not found")
